@@ -554,7 +554,9 @@ func (e *specEnv) callExpr(x *ast.CallExpr) sval {
 			no.vars[id.Name] = ne.vars[id.Name]
 			ne.old = no
 		}
+		c.noBind++
 		body := ne.eval(x.Args[3]).v[0]
+		c.noBind--
 		rng := and(le(lo, q), lt(q, hi))
 		c.stats.quantified++
 		if name == "forall" {
@@ -641,6 +643,56 @@ func (e *specEnv) callExpr(x *ast.CallExpr) sval {
 			}
 		}
 		return sval{Val{app(c.uf("bigexp", []string{"Int", "Int", "Int"}, "Int"), a.v[0], b.v[0], "0")}, tInt, ""}
+	case "in":
+		// in(m, k): key k is present in map m
+		m := e.eval(x.Args[0])
+		k := e.eval(x.Args[1])
+		mt, ok := m.t.Underlying().(*types.Map)
+		if m.t == nil || !ok {
+			e.errorf("in: first argument must be a map")
+			return sval{Val{sFalse}, tBool, ""}
+		}
+		_, present := c.mapLoad(e.st.heap, m.v[0], mt, k.v)
+		return sval{Val{and(neq(m.v[0], "0"), present)}, tBool, ""}
+	case "string":
+		// string(b): the string with the bytes of slice b (same encoding as the conversion in code)
+		a := e.eval(x.Args[0])
+		if a.t != nil {
+			if sl, ok := a.t.Underlying().(*types.Slice); ok {
+				mem := "E|" + elemKey(sl.Elem()) + "|"
+				arr := c.sel(c.heapGet(e.st.heap, mem, memSort("Int", 2)), a.v[0])
+				fn := c.uf("str_of_bytes", []string{arrSort("Int"), "Int", "Int"}, "Str")
+				return sval{Val{app(fn, arr, a.v[1], a.v[2])}, types.Typ[types.String], ""}
+			}
+			if isString(a.t) {
+				return a
+			}
+		}
+		e.errorf("string(x): unsupported argument")
+		return sval{Val{"|str!empty|"}, types.Typ[types.String], ""}
+	case "canon":
+		// canon(arr, n): the array that agrees with arr on 0..n-1 and is 0 elsewhere (so that arrays
+		// equal on their Go range are equal as SMT values)
+		a := e.eval(x.Args[0])
+		n, ok := litInt(e.eval(x.Args[1]).v[0])
+		if !ok || n < 0 || n > 64 {
+			e.errorf("canon: second argument must be a literal in 0..64")
+			return a
+		}
+		arr := constArr("(Array Int Int)", "0")
+		for i := int64(0); i < n; i++ {
+			arr = sto(arr, num(i), c.sel(a.v[0], num(i)))
+		}
+		return sval{Val{c.bind("canon", "(Array Int Int)", arr)}, nil, "(Array Int Int)"}
+	case "subsetStr":
+		// subsetStr(a, b): every string in set a (Array Str Bool) is in set b
+		a := e.eval(x.Args[0])
+		b := e.eval(x.Args[1])
+		q := c.qvar()
+		c.stats.quantified++
+		return sval{Val{fmt.Sprintf("(forall ((%s Str)) (=> (select %s %s) (select %s %s)))", q, a.v[0], q, b.v[0], q)}, tBool, ""}
+	case "emptyStrSet":
+		return sval{Val{"((as const (Array Str Bool)) false)"}, nil, "(Array Str Bool)"}
 	case "typeid":
 		lit, ok := x.Args[0].(*ast.BasicLit)
 		if !ok {
